@@ -1,6 +1,10 @@
 """C19: work and memory bounded by the input supplied."""
 BIN = "c19"
 
+def PREGEN(tier, seed):
+    n = 60 if tier == "thorough" else 8
+    return ["gen %d %d" % (t, seed * 7919 + i) for t in [1, 2, 3, 4, 5, 6, 7, 14, 11, 13, 17, 18, 8] for i in range(n)]
+
 def expected(case, mout):
     op = case.get("op")
     if op == "take":
